@@ -16,6 +16,7 @@ workers `w`) and **every** reachable state of the transition system `step` (ever
 * `C42_count` — `checked_count` is the number of files whose check succeeded, whatever the schedule.
 * `C42_schedule_independent` — two final states for any two worker counts agree up to permutation.
 * `C42_progress`, `C42_serial_run`, `C42_accept_sound`.
+* `C42_disk` — the same permutation statement for what is on disk after `Reporter.output`, for every `w`.
 -/
 namespace LokiModel.C42
 
@@ -208,31 +209,13 @@ theorem C42_accept_sound (c : Cfg ρ β) (es : List Ev) (s : State β) (h : repl
 
 /-! ## what reaches the disk -/
 
-/-- the full statement including the output files: for every configuration and every final state, the
-content on disk of every handler's file is (defined and) a permutation of the serial result -/
-def C42_full : Prop :=
-  ∀ (c : Cfg Nat Nat) (s : State Nat), Reach c s → isFinal s = true → ∀ k, k < c.nh →
-    ∃ l, onDisk c s k = some l ∧ l.Perm (serialOut c k)
-
-/-- witness: one file, one handler, two workers — the parallel path leaves the file content to
-finalisation order (observed: the violations file is empty after the process exited) -/
-theorem C42_full_false : ¬ C42_full := by
-  intro h
-  let c : Cfg Nat Nat := { files := [0], lint := fun f => f, ok := fun _ => true, nh := 1, handle := fun _ r => r, w := 2 }
-  obtain ⟨s, _, hr, hf, _⟩ := C42_serial_run c (by decide)
-  obtain ⟨l, hl, _⟩ := h c s hr hf 0 (by decide)
-  simp [onDisk, KnownOutputLost, c] at hl
-
-/-- **C42 including the output files, outside the failing family**: in the serial path (`w ≤ 1`) the file
-of every handler holds a permutation of (by `C42_serial_run`: exactly) the serial result.
-Missing for the full statement: exactly the parallel path `KnownOutputLost c.w = true`. -/
-theorem C42_disk_partial (c : Cfg ρ β) (s : State β) (hk : KnownOutputLost c.w = false) (hr : Reach c s)
-    (hf : isFinal s = true) (k : Nat) (hlt : k < c.nh) :
-    ∃ l, onDisk c s k = some l ∧ l.Perm (serialOut c k) := by
-  refine ⟨s.outs k, by simp [onDisk, hk], C42_handlers_perm c s hr hf k hlt⟩
-
-example : KnownOutputLost 1 = false := by decide
-example : KnownOutputLost 2 = true := by decide
+/-- **C42 including the output files (full strength since the `fix:` commit)**: for every configuration,
+every worker count and every final state, the content on disk of every handler's file is defined and is a
+permutation of the serial result.  Before the fix this held only for the serial path
+(`Findings/C42.lean: C42_old_output_lost`). -/
+theorem C42_disk (c : Cfg ρ β) (s : State β) (hr : Reach c s) (hf : isFinal s = true) (k : Nat) (hlt : k < c.nh) :
+    ∃ l, onDisk c s k = some l ∧ l.Perm (serialOut c k) :=
+  ⟨s.outs k, rfl, C42_handlers_perm c s hr hf k hlt⟩
 
 /-! non-vacuity: three files, two handlers, two workers; the two handler lists end up in different orders -/
 def exCfg : Cfg Nat Nat := { files := [0, 1, 2], lint := fun f => 10 * f, ok := fun r => r != 10, nh := 2,
